@@ -279,7 +279,22 @@ def rule_r4(ctx) -> List[R.Inst]:
             insts.append(R.viol("C03.R4", key, file, z.lineno,
                                 f"beats computed from '{unparse(q)}' are paired positionally with '{unparse(b)}': "
                                 f"different sequences / orders", construct=unparse(z)))
-    # the timing map used must be built from the same tempo list that is written
+    # beat positions in #BPMS / #STOPS: the text must resolve the snap grid.  round(x, 2) keeps 0.01 beat — a change on a 1/8 or 1/48
+    # beat moves by up to 0.005 beat, and every later object by that times the jump in beat length, which exceeds 1/96 beat at the
+    # local tempo for large tempo ratios
+    rounds = sorted((n for n in ast.walk(fn.node) if isinstance(n, ast.Call) and unparse(n.func) == "round" and len(n.args) == 2 and
+                     isinstance(n.args[1], ast.Constant) and "beat" in unparse(n.args[0])), key=lambda n: (n.lineno, n.col_offset))
+    for ix_, n in enumerate(rounds):
+        if True:
+            d_ = n.args[1].value
+            key = f"beat-precision#{ix_}"
+            if isinstance(d_, int) and d_ >= 3:
+                insts.append(R.ok("C03.R4", key, file, n.lineno, idiom=f"beat written with {d_} decimals"))
+            else:
+                insts.append(R.viol("C03.R4", key, file, n.lineno,
+                                    f"beat positions are written with round(..., {d_}): a tempo change on a 1/8 beat (x.125) is written 0.005 beat "
+                                    f"off, and the objects after it move by 0.005 beat times the jump in beat length — 3.5 ms for 60 -> 200 bpm, "
+                                    f"more than the 1/96 beat (3.125 ms) the written grid allows", construct=f"round(beat, {d_}) in #BPMS/#STOPS"))
     return insts
 
 
@@ -472,20 +487,46 @@ def rule_r6(ctx) -> List[R.Inst]:
     return insts
 
 
+def rule_r9(ctx) -> List[R.Inst]:
+    """#STOPS round trip: what the writer takes from `chart.stops` the reader must put back there"""
+    M = ctx.M
+    rid = "C03.R9"
+    wfn = M.fn(S.SET_META + "._write_metadata")
+    writes = any(isinstance(n, ast.Attribute) and n.attr == "stops" for n in ast.walk(wfn.node))
+    rn = M.fn(S.SMMAP + "._read_notes")
+    file = M.mods[rn.mod].rel
+    has_param = "stops" in [a.arg for a in rn.node.args.args]
+    stored = any(isinstance(n, ast.Assign) and isinstance(n.targets[0], ast.Attribute) and n.targets[0].attr == "stops" and
+                 unparse(n.targets[0].value) in ("self", "sm") for f_ in (rn, M.fn(S.SMMAP + ".read")) for n in ast.walk(f_.node))
+    used = [n for n in ast.walk(rn.node) if isinstance(n, ast.For) and any(isinstance(x, ast.Name) and x.id == "stops" for x in ast.walk(n.iter))]
+    if not (writes and has_param):
+        return [R.ok(rid, "stops-read-back", file, rn.node.lineno, idiom="stops are not part of the file exchange")]
+    if stored:
+        return [R.ok(rid, "stops-read-back", file, rn.node.lineno, idiom="the stops of the file are stored in the chart")]
+    return [R.viol(rid, "stops-read-back", file, (used[0] if used else rn.node).lineno,
+                   "the writer emits #STOPS from the chart's stop list, the reader uses the file's stops only to shift the objects and never "
+                   "stores them in the chart: a chart read from a file with stops has an empty stop list, and writing it again emits "
+                   "'#STOPS:;' while the object times still contain the stop lengths — reading the written text back does not give the "
+                   "same result again", construct="SMMap._read_notes: stops parameter never stored in self.stops")]
+
+
 def rule_dep(ctx):
     """obligations inherited from shared code reached through the call graph (sa/props/deps.py)"""
     from .deps import dep_insts
-    return dep_insts(ctx, "C03", ["reamber.sm.SMMapSet.SMMapSet.write"], skip_groups=())
+    return dep_insts(ctx, "C03", ["reamber.sm.SMMapSet.SMMapSet.write",
+                                    # "read back unchanged", "reading the written text back gives the same result": the reader's rules too
+                                    "reamber.sm.SMMapSet.SMMapSet.read"], skip_groups=())
 
 
 SPECS = [
     RuleSpec("C03.R1", rule_r1, 22, "A1", "header tag table with inverse transforms"),
     RuleSpec("C03.R2", rule_r2, 22, "A9", "every alternative of every header element has shape '#TAG:…;'"),
     RuleSpec("C03.R3", rule_r3, 16, "A5", "times / columns / symbols enumerate the same lists in the same order; holds = head + tail"),
-    RuleSpec("C03.R4", rule_r4, 2, "A5", "tempo and stop pairing: beats of a list zipped with that same list"),
+    RuleSpec("C03.R4", rule_r4, 4, "A5", "tempo and stop pairing: beats of a list zipped with that same list"),
     RuleSpec("C03.R5", rule_r5, 5, "A1", "per-chart header order equals the reader's positions"),
     RuleSpec("C03.R7", rule_r7, 5, "A7", "row index shapes: measure = beat // 4, position (beat mod 4)/4, row = num * rows/den, cell store"),
     RuleSpec("C03.R6", rule_r6, 2, "A7", "note rows are as wide as the chart type's key count"),
+    RuleSpec("C03.R9", rule_r9, 1, "A1", "#STOPS round trip: the reader stores what the writer emits"),
     RuleSpec("C03.D", rule_dep, 1, "M0", "rules of the shared code (timing engine, list classes, stacker) that the operations of this property reach"),
 ]
 
